@@ -9,7 +9,7 @@ LEVEL = "model_checking"
 ANCHOR_PREFIXES = ["loop_el::", "context::TransformerContext::inc_depth", "context::TransformerContext::dec_depth", "context::", "transform::", "expression::eval_condition", "functions::"]
 BOUNDS = ("loop-limit L in 0..3 with while / until loops whose trip count is governed by a symbolic integer bound in [-2,8] (every trip count 0..L+2 is a solver-found path), bodies of 1-2 elements, "
           "loops at top level and inside <g>; count loops and <for> loops with concrete trip counts 0..L+2 (ground); depth-limit d+2 (d = the template's nesting depth) with a while loop emitting "
-          "N <= 6 sibling elements (N symbolic) of kinds {text with content, defs, nested svg, namespaced embedded svg, linearGradient, g, rect, reuse, use, a, marker, clipPath, comment, style, path, polyline}; documents with 1-8 forward-referencing (retried) elements at nesting depth D with depth-limit D and D+1; nesting depth D-1/D/D+1 and var-limit boundaries (ASCII exact; multi-byte characters: Ok or Err, never a crash) as ground queries; seeded random fragments (quick 150, thorough 2500, each at limit need-1 / need / need+1): element trees over {g, loop, for, if true/false, reuse of a shape / group template, use, specs, shapes, var, config, defaults} against a reference nesting-depth model, and nests of count / while / until / for loops with concrete pass counts against a per-loop pass model; limits nested in <if> / <loop> / <for>, changed by a <config> inside a running loop or later in the document; values copied from group / reuse attributes and <for> items")
+          "N <= 6 sibling elements (N symbolic) of kinds {text with content, defs, nested svg, namespaced embedded svg, linearGradient, g, rect, reuse, use, a, marker, clipPath, comment, style, path, polyline}; documents with 1-8 forward-referencing (retried) elements at nesting depth D with depth-limit D and D+1; nesting depth D-1/D/D+1 and var-limit boundaries (ASCII exact; multi-byte characters: Ok or Err, never a crash) as ground queries; seeded random fragments (quick 150, thorough 2500, each at limit need-1 / need / need+1): element trees over {g, loop, for, if true/false, reuse of a shape / group template, use, specs, shapes, var, config, defaults} against a reference nesting-depth model, and nests of count / while / until / for loops with concrete pass counts against a per-loop pass model; limits nested in <if> / <loop> / <for>, changed by a <config> inside a running loop or later in the document; values copied from group / reuse attributes and <for> items; var-limit per value of a multi-attribute <var> (each within / one over the limit, swap at the limit)")
 ASSUMPTIONS = ["a loop 'runs more than loop-limit iterations' when its body would be entered more than loop-limit times (test-suite: count=100 passes and count=101 fails with loop-limit=100)",
                "nesting depth counts element levels (test-suite: g>g>g>rect needs depth-limit 4); the symbolic length templates leave two levels of slack so that they do not depend on how an element's own text content is counted"]
 
